@@ -159,7 +159,9 @@ class _Res:
 
 
 def positional_probe(fun, x0, bounds=None, method=None, tol=None):  # noqa: ANN001, ARG001
-    """Stand-in for scipy.optimize.minimize (same calling convention as used by LocalScipyMinimizer)."""
+    """Stand-in for scipy.optimize.minimize (same calling convention as used by LocalScipyMinimizer).
+    Like a box-constrained optimiser it projects every candidate (the start first) into the box `bounds`
+    (one (lo, hi) per POSITION of x0) before evaluating it; min / max are exact in binary64."""
     x0 = [float(v) for v in x0]
     cands = [list(x0)]
     for i in range(len(x0)):
@@ -167,6 +169,10 @@ def positional_probe(fun, x0, bounds=None, method=None, tol=None):  # noqa: ANN0
             c = list(x0)
             c[i] = x0[i] * f
             cands.append(c)
+    if bounds is not None:
+        box = [(float(lo), float(hi)) for lo, hi in bounds]
+        # zip without strict: a box of another length truncates (mirrored by the Coq model's `combine`)
+        cands = [[min(max(v, lo), hi) for v, (lo, hi) in zip(c, box)] for c in cands]
     best = None
     for c in cands:
         l = float(fun(np.array(c, dtype=float)))
